@@ -41,15 +41,14 @@ Section StepLemmas.
   Hypothesis Hrec : spec rec.
 
   (* ---- grid / sequence diagram: contents extracted ---- *)
-  Lemma step_clear_inv s c gi q cs s' more :
+  Lemma step_clear_ex s c gi q cs ng' tr :
     inv g0 (s_g s) (s_ext s) (s_x s) (s_nears s) cs -> qinv g0 (s_g s) cs (t_id c :: q) -> near_f (s_g s) ->
     find_f (t_id c) (g_roots (s_g s)) = Some c -> find_f (t_id c) (g_roots g0) = Some c ->
     (forall d, In d cs -> ~ In d (tids c)) -> i_near gi = false ->
-    step_special rec c gi s = Ok (s', more) -> linv g0 s' (q ++ more).
+    rec gi (ex_ng c false (s_g s)) = Ok (ng', tr) ->
+    exists s', step_special rec c gi s = Ok (s', []) /\ linv g0 s' q.
   Proof.
-    intros I Q NF Hf Hf0 Hno Hn. unfold step_special. rewrite Hn.
-    destruct (rec gi (ex_ng c false (s_g s))) as [[ng' tr]| | |] eqn:R; try discriminate.
-    intro E. inversion E; subst s' more. clear E. rewrite app_nil_r.
+    intros I Q NF Hf Hf0 Hno Hn R. unfold step_special. rewrite Hn, R. eexists. split; [reflexivity|].
     pose proof (Hrec gi _ ng' tr (ex_ng_good_kids g0 (s_g s) _ _ _ _ G0 I c NF Hf Hf0) R) as S.
     exists (cs ++ [t_id c]). simpl. split; [|split].
     - apply inv_clear; assumption.
@@ -57,14 +56,32 @@ Section StepLemmas.
     - apply near_f_clear. exact NF.
   Qed.
 
+  Lemma step_clear_inv s c gi q cs s' more :
+    inv g0 (s_g s) (s_ext s) (s_x s) (s_nears s) cs -> qinv g0 (s_g s) cs (t_id c :: q) -> near_f (s_g s) ->
+    find_f (t_id c) (g_roots (s_g s)) = Some c -> find_f (t_id c) (g_roots g0) = Some c ->
+    (forall d, In d cs -> ~ In d (tids c)) -> i_near gi = false ->
+    step_special rec c gi s = Ok (s', more) -> linv g0 s' (q ++ more).
+  Proof.
+    intros I Q NF Hf Hf0 Hno Hn E.
+    destruct (rec gi (ex_ng c false (s_g s))) as [[ng' tr]| | |] eqn:R;
+      try (unfold step_special in E; rewrite Hn, R in E; discriminate).
+    destruct (step_clear_ex s c gi q cs ng' tr I Q NF Hf Hf0 Hno Hn R) as [s2 [E2 L2]].
+    rewrite E2 in E. inversion E; subst. rewrite app_nil_r. exact L2.
+  Qed.
+
   (* ---- constant near: extracted with its container ---- *)
-  Lemma step_near_inv s c gi q cs s' more :
+  Definition near_in (c : tree) (g : graph) : graph :=
+    set_roots (ex_ng c true g) (map_head (set_near None) (g_roots (ex_ng c true g))).
+
+  Lemma step_near_ex s c gi q cs :
     inv g0 (s_g s) (s_ext s) (s_x s) (s_nears s) cs -> qinv g0 (s_g s) cs (t_id c :: q) -> near_f (s_g s) ->
     find_f (t_id c) (g_roots (s_g s)) = Some c -> find_f (t_id c) (g_roots g0) = Some c ->
     (forall d, In d cs -> ~ In d (tids c)) -> i_near gi = true -> is_some (k_near (t_kind c)) = true ->
-    step_special rec c gi s = Ok (s', more) -> linv g0 s' (q ++ more).
+    good (near_in c (s_g s)) /\
+    forall ng' tr, rec default_info (near_in c (s_g s)) = Ok (ng', tr) ->
+      exists s', step_special rec c gi s = Ok (s', []) /\ linv g0 s' q.
   Proof.
-    intros I Q NF Hf Hf0 Hno Hn Hk. unfold step_special. rewrite Hn.
+    intros I Q NF Hf Hf0 Hno Hn Hk. unfold step_special, near_in. rewrite Hn.
     set (g := s_g s) in *.
     pose proof (inv_nd g0 g _ _ _ _ G0 I) as ND.
     pose proof (inv_nd_objs g0 g _ _ _ _ G0 I) as NDO.
@@ -88,9 +105,9 @@ Section StepLemmas.
       - apply (ex_ng_ends g0 g _ _ _ _ I c true).
       - apply (ex_ng_trip g0 g _ _ _ _ G0 I c true).
       - simpl. unfold root_near_ok. rewrite t_kind_set_near, t_kids_set_near. simpl. rewrite Hkids. reflexivity. }
-    destruct (rec default_info ng_in) as [[ng' tr]| | |] eqn:R; try discriminate.
+    split; [exact Gin|]. intros ng' tr R. fold ng_in. rewrite R.
     pose proof (Hrec default_info _ ng' tr Gin R) as [SL SR SO SE]. simpl in SR, SO, SE.
-    rewrite SR. intro E. inversion E; subst s' more. clear E. rewrite app_nil_r.
+    rewrite SR. eexists. split; [reflexivity|].
     rewrite set_near_back.
     exists cs. simpl. split; [|split].
     - apply inv_remove; try assumption; reflexivity.
@@ -98,12 +115,28 @@ Section StepLemmas.
     - apply (near_f_remove g0 g _ _ _ _ G0 I c Hin NF).
   Qed.
 
+  Lemma step_near_inv s c gi q cs s' more :
+    inv g0 (s_g s) (s_ext s) (s_x s) (s_nears s) cs -> qinv g0 (s_g s) cs (t_id c :: q) -> near_f (s_g s) ->
+    find_f (t_id c) (g_roots (s_g s)) = Some c -> find_f (t_id c) (g_roots g0) = Some c ->
+    (forall d, In d cs -> ~ In d (tids c)) -> i_near gi = true -> is_some (k_near (t_kind c)) = true ->
+    step_special rec c gi s = Ok (s', more) -> linv g0 s' (q ++ more).
+  Proof.
+    intros I Q NF Hf Hf0 Hno Hn Hk E.
+    destruct (step_near_ex s c gi q cs I Q NF Hf Hf0 Hno Hn Hk) as [_ HX].
+    destruct (rec default_info (near_in c (s_g s))) as [[ng' tr]| | |] eqn:R;
+      try (unfold step_special in E; rewrite Hn in E; fold (near_in c (s_g s)) in E; rewrite R in E; discriminate).
+    destruct (HX ng' tr eq_refl) as [s2 [E2 L2]].
+    rewrite E2 in E. inversion E; subst. rewrite app_nil_r. exact L2.
+  Qed.
+
   (* ---- a grid cell that is an ordinary container ---- *)
-  Lemma step_cell_inv sv s c q cs s' more :
+  Lemma step_cell_ex sv s c q cs :
     inv g0 (s_g s) (s_ext s) (s_x s) (s_nears s) cs -> qinv g0 (s_g s) cs (t_id c :: q) -> near_f (s_g s) ->
     find_f (t_id c) (g_roots (s_g s)) = Some c -> find_f (t_id c) (g_roots g0) = Some c ->
     (forall d, In d cs -> ~ In d (tids c)) -> In c (g_roots (s_g s)) ->
-    step_cell rec sv c s = Ok (s', more) -> linv g0 s' (q ++ more).
+    good (ex_ng c true (s_g s)) /\
+    forall ng' tr, rec default_info (ex_ng c true (s_g s)) = Ok (ng', tr) ->
+      exists s', step_cell rec sv c s = Ok (s', []) /\ linv g0 s' q.
   Proof.
     intros I Q NF Hf Hf0 Hno Hin. unfold step_cell.
     set (g := s_g s) in *.
@@ -121,7 +154,7 @@ Section StepLemmas.
       - apply (ex_ng_ends g0 g _ _ _ _ I c true).
       - apply (ex_ng_trip g0 g _ _ _ _ G0 I c true).
       - simpl. pose proof NF as H. unfold near_f in H. rewrite forallb_forall in H. rewrite (H c Hin). reflexivity. }
-    destruct (rec default_info (ex_ng c true g)) as [[ng' tr]| | |] eqn:R; try discriminate.
+    split; [exact Gin|]. intros ng' tr R. rewrite R.
     pose proof (Hrec default_info _ ng' tr Gin R) as [SL SR SO SE]. simpl in SR, SO, SE.
     set (g2 := inject_root ng' (ex_rem c true g)).
     set (xe := ex_xs c true g).
@@ -159,7 +192,7 @@ Section StepLemmas.
     rewrite Hrl. fold g4.
     assert (Hf4 : find_f (t_id c) (g_roots g4) = Some c).
     { rewrite <- (find_f_perm (t_id c) _ _ ND (ge_roots _ _ GE4)). exact Hf. }
-    rewrite Hf4. intro E. inversion E; subst s' more. clear E. rewrite app_nil_r.
+    rewrite Hf4. eexists. split; [reflexivity|].
     assert (Q4 : qinv g0 g4 cs (t_id c :: q)) by (eapply qinv_geq; [exact ND | apply (ge_roots _ _ GE4) | exact Q]).
     exists (cs ++ [t_id c]). simpl. split; [|split].
     - pose proof (inv_clear g0 g4 _ _ _ _ G0 I4 c (ex_ng c false g4) Hf4 Hno
@@ -171,5 +204,19 @@ Section StepLemmas.
       rewrite Ek in IC. exact IC.
     - eapply qinv_clear; eassumption.
     - apply near_f_clear. eapply near_f_geq; eassumption.
+  Qed.
+
+  Lemma step_cell_inv sv s c q cs s' more :
+    inv g0 (s_g s) (s_ext s) (s_x s) (s_nears s) cs -> qinv g0 (s_g s) cs (t_id c :: q) -> near_f (s_g s) ->
+    find_f (t_id c) (g_roots (s_g s)) = Some c -> find_f (t_id c) (g_roots g0) = Some c ->
+    (forall d, In d cs -> ~ In d (tids c)) -> In c (g_roots (s_g s)) ->
+    step_cell rec sv c s = Ok (s', more) -> linv g0 s' (q ++ more).
+  Proof.
+    intros I Q NF Hf Hf0 Hno Hin E.
+    destruct (step_cell_ex sv s c q cs I Q NF Hf Hf0 Hno Hin) as [_ HX].
+    destruct (rec default_info (ex_ng c true (s_g s))) as [[ng' tr]| | |] eqn:R;
+      try (unfold step_cell in E; rewrite R in E; discriminate).
+    destruct (HX ng' tr eq_refl) as [s2 [E2 L2]].
+    rewrite E2 in E. inversion E; subst. rewrite app_nil_r. exact L2.
   Qed.
 End StepLemmas.
